@@ -8,7 +8,8 @@ from ..runner import Part, Violation
 ID = "C19"
 RULE = ("every line of a generated GFA1/GFA2 document, stand-alone (gfapy.Line) and connected inside a Gfa "
         "(including the merged header), vlevel 0-3, is cloned; oracle: clone not connected, same written form, "
-        "== original; in half of the cases two JSON tags are first created through the API with Python values and a "
+        "== original (also for the placeholder lines of the document added without its S lines: the clone is a placeholder "
+        "with the same written form); in half of the cases two JSON tags are first created through the API with Python values and a "
         "clone is taken before anything reads or writes the line; identity scan: no mutable object (list, CIGAR, operation, OrientedLine, dict, FieldArray, "
         "NumericArray) reachable from both; EVERY mutable value reachable from the clone is edited in place and "
         "fields/tags are reassigned/deleted, after which the original line, its Gfa and the lines it references "
@@ -246,6 +247,26 @@ def prop(case):
         check_line(t, g, "connected %s line" % ("header" if t is g.header else t.record_type), labels, pre=case.get("pre", False))
         labels["rt_" + ("custom" if t.record_type not in "HSLCPEFGOU#" else t.record_type)] = True
         k += 1
+    # placeholders: the same document without its S lines, added line by line, leaves virtual
+    # segments (and virtual links of paths); their clones are placeholders too
+    try:
+        g = gfapy.Gfa(version=version, vlevel=vlevel)
+        for l_ in lines:
+            if not l_.startswith(("S\t", "H\t")):
+                g.add_line(l_)
+        virt = [x for x in g.lines if x.virtual]
+    except Exception:
+        virt = []
+    for v in virt[:6]:
+        try:
+            c = v.clone()
+            ok = (c.virtual == v.virtual) and str(c) == str(v) and not c.is_connected()
+        except Exception as e:
+            raise Violation("clone-raised", "clone of the placeholder %r raised %s: %s" % (O.line_text(v), type(e).__name__, str(e)[:200]), type(e).__name__)
+        if not ok:
+            raise Violation("clone-placeholder", "clone of the placeholder %r: virtual=%r, written %r, connected=%r" % (
+                str(v), c.virtual, str(c), c.is_connected()), v.record_type if v.record_type != "\n" else "unknown")
+        labels["placeholders"] = True
     return labels
 
 
